@@ -10,7 +10,7 @@ from leaspy.io.data.dataset import Dataset
 
 
 def cohort(rng, n_ind=None, n_feat=None, max_visits=8, missing="mcar", events=False, one_visit_ok=True,
-           binary=False, id_style="str", subpops=1, subpop_gap=14.0):
+           binary=False, id_style="str", subpops=1, subpop_gap=14.0, nb_events=1):
     """A synthetic cohort table following a noisy logistic progression.  IDs are zero-padded & sorted."""
     n_ind = int(n_ind if n_ind is not None else rng.integers(3, 13))
     n_feat = int(n_feat if n_feat is not None else rng.integers(1, 5))
@@ -84,15 +84,17 @@ def cohort(rng, n_ind=None, n_feat=None, max_visits=8, missing="mcar", events=Fa
             lt = float(df.loc[df["ID"] == s, "TIME"].max())
             ev_t[s] = round(lt + float(rng.uniform(0.1, 5.0)), 3)
             ev_b[s] = bool(rng.random() < 0.6) if j >= 2 else bool(j)  # at least one observed and one censored
+            if nb_events >= 2:  # competing events: 0 = censored, k = event of kind k observed (every kind observed at least once)
+                ev_b[s] = int(rng.integers(0, nb_events + 1)) if j > nb_events else j
         df["EVENT_TIME"] = df["ID"].map(ev_t)
         df["EVENT_BOOL"] = df["ID"].map(ev_b)
         del last
     return df
 
 
-def to_dataset(df, events=False):
+def to_dataset(df, events=False, nb_events=1):
     if events:
-        data = Data.from_dataframe(df, data_type="joint")
+        data = Data.from_dataframe(df, data_type="joint", **({"factory_kws": {"nb_events": nb_events}} if nb_events != 1 else {}))
     else:
         data = Data.from_dataframe(df)
     return Dataset(data)
@@ -136,10 +138,14 @@ MODEL_GRID = [
 def ready_state(rng, kind, dim, src, noise, n_ind=None, missing="mcar"):
     """(model, dataset, state) with data variables + individual latent values loaded, fork REF on (as in a fit)."""
     events = kind == "joint"
-    df = cohort(rng, n_ind=n_ind, n_feat=dim, missing=missing, events=events, one_visit_ok=not events,
-                binary=(noise == "bernoulli"))
-    ds = to_dataset(df, events=events)
+    nb_ev = 2 if noise == "events2" else 1  # joint model with two competing events
+    df = cohort(rng, n_ind=n_ind if (n_ind is None or nb_ev == 1) else max(n_ind, 5), n_feat=dim, missing=missing, events=events, one_visit_ok=not events,
+                binary=(noise == "bernoulli"), nb_events=nb_ev)
+    ds = to_dataset(df, events=events, nb_events=nb_ev)
     kw = {}
+    if nb_ev != 1:
+        kw["nb_events"] = nb_ev
+        noise = None
     if kind == "mixture_logistic":
         kw["n_clusters"] = 2
     model = make_model(kind, dim, src, noise, **kw) if noise else make_model(kind, dim, src, **kw)
